@@ -330,7 +330,7 @@ def auto_type(ann):
     s = (ann or "").replace(" ", "")
     simple = {"int": "int", "float": "real", "bool": "bool", "str": "str", "bytes": "bytes", "float|None": "opt[real]", "str|None": "opt[str]",
               "bool|None": "opt[bool]", "int|None": "opt[int]", "tuple[float,float,float]|None": "opt[tuple[real,real,real]]",
-              "message.Message": "obj[Message]", "list[str]": "seq[str]"}
+              "message.Message": "obj[Message]", "list[str]": "seq[str]", "dict[str,str]|None": "opt[obj[StrDict]]"}
     if s in simple:
         return simple[s]
     import aioesphomeapi.model as M
@@ -372,8 +372,8 @@ def gate_contract(name, node):
     a = node.args
     for p in a.args[1:] + a.kwonlyargs:
         params[p.arg] = auto_type(ast.unparse(p.annotation) if p.annotation else None)
-    if any(t == "obj[Any]" for t in params.values()):
-        return None          # a parameter type the generator has no model for: the method is listed as not covered
+    # a parameter of a type the generator has no model for stays an opaque object: the gate obligation is provable exactly when the
+    # method reaches the gate before it uses that parameter (any use of it is `unsupported`, i.e. undecided, never a pass)
     return Contract(
         CLI + name, self_type="inst[APIClient]", params=params, tags=["C19"], label="no-session",
         requires=[("no-authenticated-session-alive", "not connected(self)")],
@@ -395,6 +395,13 @@ def lifecycle_contracts():
                  raises={"APIConnectionError": {"kind": "property", "when": "not connected(self)"}}),
         Contract(CLI + "start_connection", self_type="inst[APIClient]", params={"on_stop": "opt[callable[UserCb]]"}, tags=["C19"],
                  ensures=[P("C19", "accepted-only-when-idle", "old(self._connection) is None")],
+                 raises={"APIConnectionError": {"kind": "property", "ensures": [
+                     ("refused-only-while-a-connection-object-is-held-or-the-attempt-failed", "old(self._connection) is not None or self._connection is None"),
+                     ("refusal-has-no-side-effects", "implies(old(self._connection) is not None, self._connection is old(self._connection) and n_sent == 0)")]},
+                         "CancelledError": {"kind": "auxiliary", "ensures": [("cleared", "self._connection is None")]}}),
+        Contract(CLI + "connect", self_type="inst[APIClient]", params={"on_stop": "opt[callable[UserCb]]", "login": "bool"}, tags=["C19"],
+                 ensures=[P("C19", "accepted-only-when-idle", "old(self._connection) is None"),
+                          P("C19", "session-established", "self._connection is None or self._connection.is_connected")],
                  raises={"APIConnectionError": {"kind": "property", "ensures": [
                      ("refused-only-while-a-connection-object-is-held-or-the-attempt-failed", "old(self._connection) is not None or self._connection is None"),
                      ("refusal-has-no-side-effects", "implies(old(self._connection) is not None, self._connection is old(self._connection) and n_sent == 0)")]},
@@ -670,6 +677,9 @@ def install_lifecycle_models(eng):
         return ok(st, VObj(eng_.new_obj(st, "task", "Task"), "Task"))
     eng.builtins[id(U.create_eager_task)] = create_task
     eng.builtins[id(CL.create_eager_task)] = create_task
+    from pyvc.builtins import elem_sort
+    strdict_items_f = z3.Function("strdict_items", ObjS, z3.SeqSort(elem_sort(eng, parse_ty("tuple[str,str]"))))
+    eng.obj_methods[("StrDict", "items")] = lambda e, s, r, a, k: ok(s, VSeq(strdict_items_f(r.e), parse_ty("tuple[str,str]")))
     eng.obj_methods[("Task", "add_done_callback")] = lambda e, s, r, a, k: ok(s, VNone)
     eng.obj_methods[("Task", "cancel")] = lambda e, s, r, a, k: ok(s, VBool(True))
     eng.obj_methods[("Task", "cancelled")] = lambda e, s, r, a, k: ok(s, VBool(z3.Bool(fresh_name("cancelled"))))
